@@ -9,3 +9,32 @@ Definition run_replace (m : list (str * str)) (full as_ : str) : string :=
 
 Definition run_text (extra : list ch) (m : list (str * str)) (t : str) : string :=
   show_str (transform_text (W_of extra) m t).
+
+(* ---- program level (Rename/Program.v over Scope/PySem.v) ---- *)
+From Coq Require Import Bool.
+From Verif Require Import Scope.PySyntax Scope.PySem Rename.Program.
+Open Scope string_scope.
+
+Definition show_dotted (d : dotted) : string := show_list show_N d.
+Definition show_res (r : res) : string :=
+  match r with
+  | Bound (BImp l i) => "[""imp""," ++ show_nat l ++ "," ++ show_dotted (fst i) ++ "," ++ show_dotted (snd i) ++ "]"
+  | Bound BOther => "[""other""]"
+  | Unbound => "[""unbound""]"
+  | UnboundLocal => "[""unboundlocal""]"
+  end.
+Definition show_rd (x : rd) : string :=
+  "[" ++ show_nat (fst (fst x)) ++ "," ++ show_N (snd (fst x)) ++ "," ++ show_res (snd x) ++ "]".
+Definition unbound_roots (t : list rd) : list name :=
+  map (fun x : rd => snd (fst x)) (filter (fun x : rd => match snd x with Unbound => true | _ => false end) t).
+
+(* the renamed program's resolution trace against the renamed trace of the program *)
+Definition run_rename_flat (old new : dotted) (p : program) : string :=
+  let q := rename_program old new p in
+  let tp := pysem [] [] p in
+  let tq := pysem [] [] q in
+  show_obj [("in_domain", show_bool (in_domain old new [] [] p));
+            ("unbound_before", show_list show_N (unbound_roots tp));
+            ("unbound_after", show_list show_N (unbound_roots tq));
+            ("trace_after", show_list show_rd tq);
+            ("renamed_trace", show_list show_rd (map (rename_rd old new) tp))].
